@@ -856,8 +856,20 @@ def iter_next_override(m, cfg, f, args, t):
     return NotImplemented
 
 
+def d_skip_byte(m, cfg, f, args, t):
+    """token.rs skip_byte: position += 1; at item level valid exactly on one-byte items (checked at L1 by C11)"""
+    st = cfg.st
+    e = peek_item(st)
+    if e is not None and e[0] == 'ITEM' and e[1] in ('BEGIN', 'NULL', 'UNDEF', 'BREAK'):
+        advance(st)
+        return UNIT
+    st.events.append(('MISMATCH', 'skip_byte on a multi-byte item', e))
+    return UNIT
+
+
 def decoder_overrides():
     o = {}
+    o['minicbor::data::token::skip_byte'] = d_skip_byte
     for k in INT_METHODS + ['int']:
         o[DEC + k] = _d_int(k)
     o[DEC + 'array'] = _d_container('ARRAY')
